@@ -12,4 +12,5 @@ pub mod c18;
 pub mod c12;
 pub mod c17;
 pub mod c06;
+pub mod c03;
 pub mod generated;
